@@ -14,18 +14,18 @@ CHECKS = {
    "Trusted: the reference table / flow grammar (DESIGN appendix A), cross-checked against each other on every run; message payload variation limited to 3-4 variants per kind (all 65536 alerts).",
    "DESIGN.md section 3 C08, appendix A"),
  "C17": (True, "exploration",
-   "complete finite-domain sweep (all 256 / 65536 values of each registry type) against independently transcribed IANA tables",
-   "Every value of the domain of each of the 18 registry newtypes and of the cipher-suite id type is formatted and converted, and every named constant is compared with the IANA value; the space is finite and enumerated completely, so within the trusted tables this is a decision, not a sample.",
+   "complete finite-domain sweep (all 256 / 65536 values of each registry type) against independently transcribed IANA tables, in two builds of the crate (std+serialize and all cargo features); constants discovered from the source are read through a generated probe",
+   "Every value of the domain of each of the 18 registry newtypes and of the cipher-suite id type is formatted and converted, and every named constant is compared with the IANA value (constants the check does not reference by name are found by scanning the sources, read through a generated probe and judged against the official IANA names); the space is finite and enumerated completely, so within the trusted tables this is a decision, not a sample.",
    "Trusted: the hand-transcribed IANA tables (vcommon/src/reference/iana.rs). Constants found in the crate's sources without a table entry are reported in the evidence and not judged.",
    "DESIGN.md section 3 C17"),
  "C12": (True, "exploration",
-   "complete finite-domain sweep: all 65536 ids x 4 lookup routes, 352 rows x 10 columns, all names and single-edit perturbations",
-   "The id space, the registry table and the single-edit neighbourhood of every registry name are finite and enumerated completely against an independent reading of scripts/tls-ciphersuites.txt, a committed snapshot of today's assignments and the IANA naming convention.",
+   "complete finite-domain sweep: all 65536 ids x 4 lookup routes, 352 rows x 10 columns, all names with single-edit / token-edit / alias perturbations, all strings of length <= 5 [6] over the name alphabet",
+   "The id space, the registry table, the single-edit and token-edit neighbourhood of every registry name and all short strings over [A-Z0-9_] (bare and behind TLS_) are finite and enumerated completely against an independent reading of scripts/tls-ciphersuites.txt, a committed snapshot of today's assignments and the IANA naming convention.",
    "Trusted: scripts/tls-ciphersuites.txt as the reference registry, the committed snapshot, the token tables in vcommon/src/reference/ciphers.rs (names with unknown tokens are counted, not judged).",
    "DESIGN.md section 3 C12"),
  "C07": (True, "model_checking",
    "explicit-state BFS over operation sequences on the real TlsRecordsParser (canonical-state dedup, witness-history replay) against an accumulate-then-parse reference",
-   "All operation sequences over a 19-record alphabet x {parse_record, parse_record_nocopy} + reset up to the stated depth, all k-way splits (incl. empty fragments and cuts inside the header) of every catalogue payload interleaved with foreign-type records / nocopy / reset to fixpoint, and the 10 MiB cap histories are executed on the real object; every transition is compared with the reference model (value with slice provenance, in-progress flag, buffer, state preservation on refusals).",
+   "All operation sequences over a 19-record alphabet x {parse_record, parse_record_nocopy} + reset up to the stated depth, all k-way splits (incl. empty fragments and cuts inside the header) of every catalogue payload interleaved with foreign-type records / nocopy / reset to fixpoint, the 10 MiB cap histories, fixed split histories under every record-layer version (all 65536 values on each single record and on all records) and hand-built first fragments of about 10 MiB are executed on the real object; every transition is compared with the reference model (value with slice provenance, in-progress flag, buffer, state preservation on refusals).",
    "Trusted: parse_tls_record_with_header as the inner one-shot oracle (its correctness is C03/C04); payloads <= 45 bytes; S0 depth bound as reported in the evidence (5 quick / 8 thorough). Thorough tier: state counts cross-checked with an independent stateright BFS over the same transition function.",
    "DESIGN.md section 3 C07"),
  "C02": (True, "exploration",
@@ -65,7 +65,7 @@ CHECKS = {
    "DESIGN.md section 3 C14"),
  "C16": (True, "exploration",
    "bounded-exhaustive enumeration of record concatenations x terminators and of strings over record-oriented alphabets; differential oracle = explicit loop over the real single-record parser",
-   "Every concatenation of 0..k catalogue records followed by every terminator class, and every string up to the stated length over record-oriented alphabets, is parsed by the multi-record parsers and by an explicit loop over the single-record parser; records, stop position and failure condition must coincide; the deprecated alias must equal parse_tls_plaintext on every buffer.",
+   "Every concatenation of 0..k catalogue records followed by every terminator class, buffers of up to 1000 minimal and up to 1025 [2049] full-size records (total size across 10 MiB and 2^24), and every string up to the stated length over record-oriented alphabets, is parsed by the multi-record parsers and by an explicit loop over the single-record parser; records, stop position and failure condition must coincide; the deprecated alias must equal parse_tls_plaintext on every buffer.",
    "Trusted: the single-record parsers (decided by C02/C03/C10).",
    "DESIGN.md section 3 C16"),
  "C11": (True, "exploration",
@@ -89,13 +89,13 @@ CHECKS = {
    "Bounded input spaces (reported in the evidence); stack depth is guarded, not measured; heap measured at allocator level per thread.",
    "DESIGN.md section 3 C01"),
  "C06": (True, "exploration",
-   "bounded-exhaustive enumeration with a reference-free relational oracle: f(b) vs f(b[..consumed]) vs f(b||x) for 5 suffixes, slice positions inside the consumed prefix; defragmenter provenance via the C07 exploration",
-   "For each of 37 self-delimiting parsers every catalogue encoding with every deviation and every bounded string is parsed alone, cut to its consumed length and extended by five suffixes (including a copy of itself and valid structures); the value, the consumption and the outcome class must not change and every slice must lie inside the consumed prefix of the caller's buffer; defragmented results must borrow from the internal buffer, others from the record.",
+   "bounded-exhaustive enumeration with a reference-free relational oracle: f(b) vs f(b[..consumed]) vs f(b||x) for up to 14 suffixes (incl. 70000 bytes), slice positions inside the consumed prefix; defragmenter provenance via the C07 exploration",
+   "For each of 43 self-delimiting parsers every catalogue encoding with every deviation (lying lengths incl. +256 / +65536 / top bit), the same encodings under foreign outer headers (DER, length prefixes, record / handshake / extension headers) and every bounded string is parsed alone, cut to its consumed length and extended by the suffixes (including a copy of itself and valid structures); the value, the consumption and the outcome class must not change and every slice must lie inside the consumed prefix of the caller's buffer; defragmented results must borrow from the internal buffer, others from the record.",
    "Reference-free (no walker trusted); suffix set fixed; bounded input spaces as reported.",
    "DESIGN.md section 3 C06"),
  "C18": (True, "exploration",
-   "complete enumeration of the 4-element feature-set space (builds from the working tree), differential digests of a probe built per configuration, -F unsafe_code rebuilds + token scan, compile-time Send/Sync probe",
-   "All four feature sets are built on every run; the three buildable ones must build (also with -F unsafe_code), the fourth must fail with the compile_error text; a probe crate prints per-entry-point digests over the catalogue corpus for each configuration and they must be identical; a second probe asserts Send + Sync for 77 public types.",
+   "complete enumeration of the 4-element feature-set space (builds from the working tree), differential digests of a probe built per configuration, -F unsafe_code rebuilds + token scan of the sources and of the macro-expanded crate, compile-time Send/Sync probe",
+   "All four feature sets are built on every run; the three buildable ones must build (also with -F unsafe_code) and their macro-expanded text may contain `unsafe` only in the marker impls of core's built-in derives, the fourth must fail with the compile_error text; a probe crate prints per-entry-point digests over the catalogue corpus for each configuration and they must be identical; a second probe asserts Send + Sync for 77 public types.",
    "The behavioural comparison covers the probe's corpus (catalogue with single deviations, registries over all ids), not every input.",
    "DESIGN.md section 3 C18"),
 }
